@@ -44,12 +44,12 @@ NearMiss == AllDirNames \ DirNames
 NearPaths == { <<a>> : a \in NearMiss } \cup { <<"d", a>> : a \in NearMiss } \cup { <<"vendor", a>> : a \in NearMiss }
              \cup { <<a, "d">> : a \in NearMiss } \cup { <<"multivendor", b>> : b \in DirNames \ {"d"} }
 PerDirNear == { { F(p, "a.templ", "good", 1), F(p, "b_templ.go", "junk", 2), F(R, "b.templ", "unparsable", 1) } : p \in NearPaths }
-\* two forests of near-miss directories (kept at the size of Forest: the property operators are polynomial in the tree size)
-ForestFiles(paths) == UNION { { F(p, "a.templ", "good", 1), F(p, "a_templ.go", "junk", 0), F(p, "b_templ.go", "junk", 2), F(p, "n.txt", "text", 1) } : p \in paths }
-ForestNear1 == ForestFiles({ << >> } \cup { <<a>> : a \in NearMiss } \cup { <<".x", a>> : a \in NearMiss })
-ForestNear2 == ForestFiles({ <<"d", a>> : a \in NearMiss } \cup { <<a, "d">> : a \in NearMiss })
+\* a forest of near-miss directories at depth 1 (kept below the size of Forest: the property operators are polynomial
+\* in the tree size); nesting is covered one path at a time by PerDirNear
+ForestNear == UNION { { F(p, "a.templ", "good", 1), F(p, "a_templ.go", "junk", 0), F(p, "b_templ.go", "junk", 2), F(p, "n.txt", "text", 1) }
+                      : p \in { << >> } \cup { <<a>> : a \in NearMiss } }
 TreesSkip == PerDir \cup PerDirNear
-TreesForest == { Forest, ForestNear1, ForestNear2 }
+TreesForest == { Forest, ForestNear }
 
 \* a tree that makes every negative configuration fail: two files generated concurrently, one failing file
 TreesNeg == { { F(R, "a.templ", "good", 1), F(R, "b.templ", "good", 1), F(<<"d">>, "a.templ", "badgo", 1) } }
